@@ -115,6 +115,12 @@ func (c *RunnerCloserManager) AddCloser(closers ...any) error {
 	c.mngr.lock.Lock()
 	defer c.mngr.lock.Unlock()
 
+	// Run holds the lock while the closers run: check again now that we have it,
+	// a closer accepted after that point would never be called.
+	if c.closing.Load() {
+		return ErrManagerAlreadyClosed
+	}
+
 	var errs []error
 	for _, cl := range closers {
 		switch v := cl.(type) {
